@@ -241,7 +241,7 @@ class C06(Monitor):
         # J: programs whose jumps need EXTENDED_ARG (re-encoding normalized data has
         # to grow them in the fix-point loop)
         jumps = [c for c in S.feat_cases(self.tier) if c["k"] == "jump" and c["n"] <= 200]
-        q = list(S.prog_Q())
+        q = list(S.prog_Q()) + list(S.prog_P1())
         if self.tier == "quick":
             out = list(S.with_modes(S.prog_Pa()))
             return out[::5] + jumps + q
@@ -380,6 +380,26 @@ class C06(Monitor):
                     "%s: normalized data differs from the original's: %s" % (desc, first_diff(CodeData.from_code(code).normalize(), vn)),
                 )
                 continue
+            # the variant's own (un-normalized) data through a code round trip: the
+            # artefacts it carries (permuted tables, padding entries, pinned widths)
+            # must be encodable and must not change the normal form either
+            try:
+                with horizon(H):
+                    vr = CodeData.from_code(CodeData.from_code(v).to_code()).normalize()
+            except HorizonHit:
+                stats.violation(sub, "variant-roundtrip-no-termination", desc)
+                continue
+            except Exception as e:
+                stats.violation(sub, "variant-roundtrip-raises:" + type(e).__name__, "%s: %s" % (desc, exc_summary(e)))
+                continue
+            stats.transitions += 3
+            if skey(vr, True) != base_n:
+                stats.violation(
+                    sub,
+                    "variant-roundtrip-normalizes-differently:" + desc.split(" ")[0],
+                    "%s: after a code round trip of the variant's data the normal form differs: %s" % (desc, first_diff(CodeData.from_code(code).normalize(), vr)),
+                )
+                continue
             if path:
                 # the variant inside its parents, up to the root
                 try:
@@ -505,7 +525,7 @@ class C12(Monitor):
     def programs(self):
         out = list(spaces.with_modes(spaces.prog_Pa()))
         n = 600 if self.tier == "quick" else 2400
-        return spaces.spread(out, n) + list(spaces.prog_Q())
+        return spaces.spread(out, n) + list(spaces.prog_Q()) + list(spaces.prog_P1())
 
     def cases(self):
         for c in self.programs():
